@@ -49,7 +49,33 @@ class N2:
         self.k = k
 
 
-CLASSES = {c.__name__: c for c in (G2, G3, T2, T3, T11, T13, N1, N2)}
+# -- added for C01 (opt-in in modelgen.Gen): constructor-argument names containing "_", deeper nesting,
+#    a list-valued argument
+class CE:
+    def __init__(self, centre=(0.0, 0.0), centre_err=0.5):
+        self.centre = centre
+        self.centre_err = centre_err
+
+
+class LC:
+    def __init__(self, light_centre=(0.0, 0.0), q=1.0):
+        self.light_centre = light_centre
+        self.q = q
+
+
+class N3:
+    def __init__(self, inner: N1, t=0.0):
+        self.inner = inner
+        self.t = t
+
+
+class L1:
+    def __init__(self, items: list, s=1.0):
+        self.items = items
+        self.s = s
+
+
+CLASSES = {c.__name__: c for c in (G2, G3, T2, T3, T11, T13, N1, N2, CE, LC, N3, L1)}
 
 # name -> ordered constructor arguments: (arg, kind, extra) ; kind in float|tuple|class
 SIGNATURES = {
@@ -61,4 +87,8 @@ SIGNATURES = {
     "T13": [("pos", "tuple", 13)],
     "N1": [("inner", "class", "G2"), ("s", "float", None)],
     "N2": [("left", "class", "G2"), ("right", "class", "T2"), ("k", "float", None)],
+    "CE": [("centre", "tuple", 2), ("centre_err", "float", None)],
+    "LC": [("light_centre", "tuple", 2), ("q", "float", None)],
+    "N3": [("inner", "class", "N1"), ("t", "float", None)],
+    "L1": [("items", "list", None), ("s", "float", None)],
 }
